@@ -5,7 +5,7 @@ import common as C
 
 PROPS = ["Props/C02.v"]
 OBLIG = ["Oblig/C02Obl.v"]
-for extra_p, extra_o in (("Props/C02Records.v", "Oblig/C01Obl.v"),):
+for extra_p, extra_o in (("Props/C02Records.v", "Oblig/C01Obl.v"), ("Props/C02Valid.v", "Oblig/C02ValidObl.v")):
     if os.path.exists(os.path.join(C.COQ, extra_p)):
         PROPS.append(extra_p)
         OBLIG.append(extra_o)
@@ -26,7 +26,99 @@ def build(ctx):
     ctx.log("ocaml", out[-3000:])
     if not ok:
         ctx.diag.append("extracted model does not build: " + out[-600:])
+    if os.path.exists(os.path.join(C.COQ, "Extract", "C02V.v")):
+        ok, out = C.build_ocaml("c02v")
+        ctx.log("ocaml c02v", out[-3000:])
+        if not ok:
+            ctx.diag.append("extracted rule interpreter (valid => width) does not build: " + out[-600:])
     return True
+
+
+# ---- valid => width: the regenerated validation rules against the real Validate() methods
+
+VDRV = os.path.join(C.BUILD, "ocaml", "c02v", "driver")
+
+
+def valid_plan(d):
+    """The fields and boundary values the regenerated rules talk about (printed by the extracted model)."""
+    plan = os.path.join(d, "plan.txt")
+    rc, out = C.sh("%s plan > %s" % (VDRV, plan), timeout=600)
+    return plan if rc == 0 and os.path.getsize(plan) > 0 else None
+
+
+def valid_corr(ctx):
+    d = os.path.join(ctx.rundir, "vcorr")
+    os.makedirs(d, exist_ok=True)
+    if not os.path.exists(VDRV):
+        ctx.diag.append("valid => width correspondence could not run: no driver")
+        return None
+    plan = valid_plan(d)
+    if not plan:
+        ctx.diag.append("valid => width correspondence could not run: the extracted model printed no plan")
+        return None
+    rc, out = C.sh([os.path.join(C.BIN, "c02valid"), "corr", "-plan", plan, "-out", d, "-n", str(ctx.scale(80, 600)),
+                    "-per-type", str(ctx.scale(3, 12))], timeout=3000)
+    ctx.log("valid corr", out[-800:])
+    if rc != 0:
+        ctx.diag.append("valid => width correspondence crashed: " + out[-300:])
+        return plan
+    try:
+        info = C.json.loads(out.strip().splitlines()[-1])
+        if info.get("record_types_without_base"):
+            ctx.diag.append("valid => width correspondence: no valid base record for " + ",".join(info["record_types_without_base"]))
+    except ValueError:
+        pass
+    C.sh("%s %s > %s" % (VDRV, os.path.join(d, "cases.txt"), os.path.join(d, "model.txt")), timeout=3000)
+    m = open(os.path.join(d, "model.txt")).read().splitlines()
+    i = open(os.path.join(d, "impl.txt")).read().splitlines()
+    c = open(os.path.join(d, "cases.txt")).read().splitlines()
+    n = min(len(m), len(i), len(c))
+    if not (len(m) == len(i) == len(c)):
+        ctx.diag.append("valid => width correspondence: %d cases, %d model lines, %d implementation lines" % (len(c), len(m), len(i)))
+    rec = {"m": [], "i": [], "c": []}
+    bat = {"m": [], "i": [], "c": []}
+    skipped = 0
+    for k in range(n):
+        if c[k].startswith("V "):
+            # UNK: a check of unrecognised shape mentions the varied field; OUTSIDE: a hand-modelled accessor outside its model
+            if m[k] in ("UNK", "OUTSIDE"):
+                skipped += 1
+                continue
+            rec["m"].append(m[k]); rec["i"].append(i[k]); rec["c"].append(c[k][:400])
+        else:
+            # batch level: the entry rules are necessary conditions of Batch.Validate(), which checks much more:
+            # accepted by the implementation => accepted by the model
+            ok = not (i[k] == "ACC" and m[k] != "ACC")
+            bat["m"].append("ok" if ok else "model=" + m[k]); bat["i"].append("ok" if ok else "impl=" + i[k]); bat["c"].append(c[k][:400])
+    ctx.cov["valid_cases_with_unmodelled_check"] = skipped
+    for name, part in (("rec", rec), ("bat", bat)):
+        for kk, ext in (("m", "model"), ("i", "impl"), ("c", "cases")):
+            with open(os.path.join(d, "%s.%s.txt" % (name, ext)), "w") as fh:
+                fh.write("\n".join(part[kk]) + "\n")
+    ctx.compare("regenerated record rules (rec_validb) vs Validate() of the 26 record types, one field varied",
+                os.path.join(d, "rec.model.txt"), os.path.join(d, "rec.impl.txt"), os.path.join(d, "rec.cases.txt"))
+    ctx.compare("regenerated batch-level entry rules vs Batch.Validate() (accepted by the code => accepted by the rules)",
+                os.path.join(d, "bat.model.txt"), os.path.join(d, "bat.impl.txt"), os.path.join(d, "bat.cases.txt"))
+    return plan
+
+
+def valid_oracle(ctx, plan, n, sub="voracle"):
+    d = os.path.join(ctx.rundir, sub)
+    os.makedirs(d, exist_ok=True)
+    if not plan:
+        plan = valid_plan(d)
+    if not plan:
+        return None
+    rc, out = C.sh([os.path.join(C.BIN, "c02valid"), "oracle", "-plan", plan, "-out", d, "-n", str(n),
+                    "-corpus", os.path.join(C.VERIF, "corpus", "C02")], timeout=3000)
+    ctx.log("valid oracle", out[-800:])
+    if rc != 0:
+        ctx.diag.append("valid => width oracle crashed rc=%d: %s" % (rc, out[-300:]))
+    before = len(ctx.fails)
+    summ = ctx.read_jsonl(os.path.join(d, "oracle.jsonl"))
+    for f in ctx.fails[before:]:
+        f["input"] = f.get("case")
+    return summ
 
 
 def oracle(ctx, n, ntext, sub="oracle"):
@@ -47,6 +139,8 @@ def oracle(ctx, n, ntext, sub="oracle"):
 def search(ctx, factor):
     before = len(ctx.fails)
     oracle(ctx, ctx.scale(400, 4000) * factor, ctx.scale(1500, 20000) * factor, "search")
+    if os.path.exists(VDRV):
+        valid_oracle(ctx, None, ctx.scale(1500, 15000) * factor, "vsearch")
     found = ctx.fails[before:]
     del ctx.fails[before:]
     return found
@@ -71,6 +165,11 @@ def run(ctx):
         ctx.diag.append("correspondence could not run: " + out[-300:])
     summ = oracle(ctx, ctx.scale(400, 4000), ctx.scale(1500, 20000))
     ctx.add_summary(summ, "physical well-formedness oracle")
+    if os.path.exists(os.path.join(C.COQ, "Extract", "C02V.v")):
+        ctx.trusted += ["validation-rule translator (translator/recvalid.go -> Gen/RecRules.v), default ValidateOpts"]
+        plan = valid_corr(ctx)
+        summ = valid_oracle(ctx, plan, ctx.scale(1500, 15000))
+        ctx.add_summary(summ, "valid => width oracle")
 
 
 def replay(path):
@@ -78,6 +177,14 @@ def replay(path):
     if not ok:
         print(out[-2000:])
         return 1
+    try:
+        src = (C.json.load(open(path)).get("input") or {}).get("source")
+    except (OSError, ValueError, AttributeError):
+        src = None
+    if src == "valid-width":
+        rc, out = C.sh([os.path.join(C.BIN, "c02valid"), "replay", path], timeout=600)
+        print(out)
+        return 1 if rc != 0 else 0
     rc, out = C.sh([os.path.join(C.BIN, "c02"), "replay", path], timeout=600)
     print(out)
     return 1 if rc != 0 else 0
